@@ -1,5 +1,5 @@
 (* C13: model of goawk's output streams.  Definitions only.
-   Mirrors interp/io.go (getOutputStream, childWriter, writeOutput, printLine/printArgs,
+   Mirrors interp/io.go (getOutputStream, childWriter, writeOutput, printLine/printArgs/writeCSV,
    flushAll, flushStream, flushWriter, flushOutputAndError, printErrorf,
    closeAll, getInputScannerFile/Pipe), interp/iostream.go (outFileStream,
    outCmdStream, in*Stream, Close, waitExitCode), interp/vm.go (Print, Printf,
@@ -488,7 +488,12 @@ Inductive dest :=
 | DRedir (r : redir) (n : name). (* print ... > n, >> n, | n *)
 
 Inductive op :=
-| Print (d : dest) (pieces : list bytes)  (* the strings one print/printf hands to writeOutput *)
+| Print (d : dest) (pieces : list bytes)  (* the strings one print/printf hands to its destination, in order:
+                                             printf: the formatted string; print: a1 OFS ... an ORS; in CSV/TSV output mode
+                                             print a1..an is ONE string, the encoded record -- io.go writeCSV writes it into
+                                             a scratch bufio.Writer over the destination (or straight into a destination that
+                                             is a *bufio.Writer of >= 4096 bytes) and flushes that before it returns, so the
+                                             destination receives exactly that string; bare print and printf bypass writeCSV *)
 | Close (n : name)
 | Fflush (n : option name)                (* fflush(n); None = fflush() / fflush("") *)
 | System (c : name)
